@@ -140,7 +140,7 @@ def run(ctx: Ctx):
         n = 120 if ctx.quick else 1500
         cases = []
         for i in range(n):
-            backend = "sqlite" if i % 4 == 3 else "duckdb"
+            backend = "sqlite" if i % 3 == 2 else "duckdb"
             mode = "table" if i % 2 == 0 else "column"
             cases.append(X.gen_case(ctx.rng, backend, mode))
 
